@@ -263,48 +263,7 @@ def run(ctx):
 
     # ---------------- R1
     ctx.rule("C10.R1", "effective binding order (PRECEDENCE_TABLE + registration order in build_pratt_parser) equals the documented level list: every operator once, on its level, with its associativity", floor=30)
-    ok, why, tail = builder_shape(core)
-    ctx.inst("C10.R1", "build_pratt_parser#shape", True if ok else None,
-             "builder algorithm recognised (group by (prec,assoc) first-seen, one stable sort on prec, register in order, then prefix, factorial, access|dot_access|call_list)" if ok else "builder algorithm NOT recognised, the effective binding order cannot be read off it: " + "; ".join(why),
-             "blots-core/src/precedence.rs")
-    levels = parser_levels(rows, tail)
-    if not ok:
-        # without a recognised registration algorithm the level computation below would be a guess: no verdict on the levels
-        for di, (dk, da, dops) in enumerate(DOC_LEVELS):
-            for o in sorted(dops):
-                ctx.inst("C10.R1", "op=%s" % o, None, "not decided: the builder's registration algorithm was not recognised", "blots-core/src/precedence.rs")
-        levels = []
-    ctx.inst("C10.R1", "levels#count", (len(levels) == len(DOC_LEVELS)) if ok else None, "parser has %d binding levels, documented %d: %s" % (len(levels), len(DOC_LEVELS), [sorted(l[2]) for l in levels]), "blots-core/src/precedence.rs")
-    seen = {}
-    for li, (kind, assoc, ops) in enumerate(levels):
-        for o in ops:
-            seen.setdefault(o, []).append(li)
-    for di, (dk, da, dops) in enumerate(DOC_LEVELS if ok else []):
-        for o in sorted(dops):
-            where = seen.get(o, [])
-            if len(where) != 1:
-                ctx.inst("C10.R1", "op=%s" % o, False, "operator registered %d times (levels %s)" % (len(where), where), "blots-core/src/precedence.rs")
-                continue
-            li = where[0]
-            k, a, _ = levels[li]
-            good = li == di and k == dk and (da is None or a == da)
-            ctx.inst("C10.R1", "op=%s" % o, good, "documented level %d (%s%s), parser level %d (%s%s)" % (di, dk, " " + da if da else "", li, k, " " + a if a else ""), "blots-core/src/precedence.rs")
-    for o in sorted(set(seen) - set().union(*[d[2] for d in DOC_LEVELS])):
-        ctx.inst("C10.R1", "op=%s" % o, False, "operator %s is registered but not in the documented table" % o, "blots-core/src/precedence.rs")
-
-    # whatever shape the builder has: pest's PrattParser binds in registration order, so a prefix / postfix operator registered inside the
-    # loop over the infix groups sits *between* infix levels (the documented table has every prefix operator above every infix one)
-    fb_ = core.hir_fn("blots_core::precedence::build_pratt_parser")["body"]
-    inside = []
-    for fo_ in H.walk(fb_):
-        if H.kind(fo_) != "For":
-            continue
-        ops_ = [n_ for n_ in H.walk(fo_["body"]) if H.kind(n_) == "MethodCall" and n_["name"] == "op"]
-        kinds_ = [(n_, {k_ for k_, _r in op_chain(n_["args"][0])}) for n_ in ops_]
-        has_infix = any(H.kind(x_) == "Call" and ("pratt_parser::Op" in (x_.get("def") or "") and (x_.get("def") or "").endswith("::infix")) for x_ in H.walk(fo_["body"]))
-        if has_infix:
-            inside += ["%s at %s" % (sorted(ks - {"infix", "?"}), H.loc(n_)) for n_, ks in kinds_ if ks & {"prefix", "postfix"}]
-    ctx.inst("C10.R1", "build_pratt_parser#nothing-between-infix-levels", not inside, "prefix / postfix registrations inside the loop that registers the infix groups: %s" % (inside or "none"), "blots-core/src/precedence.rs")
+    ok, why, tail = binding_levels_rule(ctx, "C10.R1", core, rows)
 
     # ---------------- R11 the names that cannot be bound are the published built-in names, no more
     from rules import printers as P_
@@ -835,3 +794,51 @@ def names_from_tokens(ctx, rid, core, G, declare=True):
                 ctx.inst(rid, key + "@" + "|".join(sorted(rules_)), v, "text of %s %s (%s); may contain optional layout: %s%s" % ("the pair" if kind_ == "pair" else "the children of", sorted(rules_), "then " + ",".join(ops) if ops else "as is", bad or "no", "; whitespace is trimmed afterwards" if trimmed else ""), H.loc(n))
     if n_sites == 0:
         ctx.inst(rid, "sites", None, "no name built from a pair's text was identified in the AST builder", None)
+
+
+def binding_levels_rule(ctx, rid, core, rows):
+    """effective binding levels = documented levels (shared with C07: the printers' parenthesisation is written against the documented table)"""
+    ok, why, tail = builder_shape(core)
+    ctx.inst(rid, "build_pratt_parser#shape", True if ok else None,
+             "builder algorithm recognised (group by (prec,assoc) first-seen, one stable sort on prec, register in order, then prefix, factorial, access|dot_access|call_list)" if ok else "builder algorithm NOT recognised, the effective binding order cannot be read off it: " + "; ".join(why),
+             "blots-core/src/precedence.rs")
+    levels = parser_levels(rows, tail)
+    if not ok:
+        # without a recognised registration algorithm the level computation below would be a guess: no verdict on the levels
+        for di, (dk, da, dops) in enumerate(DOC_LEVELS):
+            for o in sorted(dops):
+                ctx.inst(rid, "op=%s" % o, None, "not decided: the builder's registration algorithm was not recognised", "blots-core/src/precedence.rs")
+        levels = []
+    ctx.inst(rid, "levels#count", (len(levels) == len(DOC_LEVELS)) if ok else None, "parser has %d binding levels, documented %d: %s" % (len(levels), len(DOC_LEVELS), [sorted(l[2]) for l in levels]), "blots-core/src/precedence.rs")
+    seen = {}
+    for li, (kind, assoc, ops) in enumerate(levels):
+        for o in ops:
+            seen.setdefault(o, []).append(li)
+    for di, (dk, da, dops) in enumerate(DOC_LEVELS if ok else []):
+        for o in sorted(dops):
+            where = seen.get(o, [])
+            if len(where) != 1:
+                ctx.inst(rid, "op=%s" % o, False, "operator registered %d times (levels %s)" % (len(where), where), "blots-core/src/precedence.rs")
+                continue
+            li = where[0]
+            k, a, _ = levels[li]
+            good = li == di and k == dk and (da is None or a == da)
+            ctx.inst(rid, "op=%s" % o, good, "documented level %d (%s%s), parser level %d (%s%s)" % (di, dk, " " + da if da else "", li, k, " " + a if a else ""), "blots-core/src/precedence.rs")
+    for o in sorted(set(seen) - set().union(*[d[2] for d in DOC_LEVELS])):
+        ctx.inst(rid, "op=%s" % o, False, "operator %s is registered but not in the documented table" % o, "blots-core/src/precedence.rs")
+
+    # whatever shape the builder has: pest's PrattParser binds in registration order, so a prefix / postfix operator registered inside the
+    # loop over the infix groups sits *between* infix levels (the documented table has every prefix operator above every infix one)
+    fb_ = core.hir_fn("blots_core::precedence::build_pratt_parser")["body"]
+    inside = []
+    for fo_ in H.walk(fb_):
+        if H.kind(fo_) != "For":
+            continue
+        ops_ = [n_ for n_ in H.walk(fo_["body"]) if H.kind(n_) == "MethodCall" and n_["name"] == "op"]
+        kinds_ = [(n_, {k_ for k_, _r in op_chain(n_["args"][0])}) for n_ in ops_]
+        has_infix = any(H.kind(x_) == "Call" and ("pratt_parser::Op" in (x_.get("def") or "") and (x_.get("def") or "").endswith("::infix")) for x_ in H.walk(fo_["body"]))
+        if has_infix:
+            inside += ["%s at %s" % (sorted(ks - {"infix", "?"}), H.loc(n_)) for n_, ks in kinds_ if ks & {"prefix", "postfix"}]
+    ctx.inst(rid, "build_pratt_parser#nothing-between-infix-levels", not inside, "prefix / postfix registrations inside the loop that registers the infix groups: %s" % (inside or "none"), "blots-core/src/precedence.rs")
+
+    return ok, why, tail
